@@ -97,7 +97,63 @@ pub fn s3(ctx: &Ctx) {
 
 /// S8: scale - counts that cross 255 / 65535: many point clouds, many points, many packets
 pub fn s8(ctx: &Ctx) {
-    let k = ctx.pick("scale-case", 9);
+    let k = ctx.pick("scale-case", 9 + 10 + 4);
+    if k >= 19 {
+        // bit-packed prototypes, five natural packet capacities + 3 points: full-size packets whose
+        // byte streams end in partial bytes carried over to the next packet
+        let si = |bits: u32| m::Ty::Scaled { min: 0, max: (1i64 << bits) - 1, scale: 0.001, offset: 0.0 };
+        let proto: Vec<m::Rec> = match k - 19 {
+            0 => {
+                let mut p = cat::xyz(si(12));
+                p.push(cat::rec("cartesianInvalidState", m::Ty::Int { min: 0, max: 2 }));
+                p
+            }
+            1 => {
+                let mut p = cat::xyz(si(10));
+                p.push(cat::rec("intensity", m::Ty::Int { min: 0, max: 255 }));
+                p
+            }
+            2 => cat::xyz(si(7)),
+            _ => {
+                let mut p = cat::xyz(si(21));
+                p.push(cat::rec("rowIndex", m::Ty::Int { min: 0, max: 4 }));
+                p
+            }
+        };
+        let cap = probe_cap(&proto);
+        let p = Program { guid: "g".into(), ops: vec![Op::Cloud(cloud(proto, 5 * cap + 3, 11))], ..Default::default() };
+        ctx.describe(|| format!("bit-packed prototype variant {}, natural packet capacity {cap}, {} points", k - 19, 5 * cap + 3));
+        let Some(w) = write_valid(ctx, &p, P) else { return };
+        if read_and_compare(ctx, &p, &w, P, None).is_some() {
+            ctx.count(format!("bulk:{}:cap{cap}", k - 19));
+            ctx.observe_u64(explore::fnv(&w.bytes));
+            ctx.nontrivial();
+        }
+        return;
+    }
+    if k >= 9 {
+        // wide prototypes: XYZ + r one-byte (or double) extension records, one more point than a
+        // data packet takes, so that the first packet is as full as the writer makes it
+        let r = [100usize, 300, 305, 310, 330, 1000, 3000, 5000, 2000, 5900][k - 9];
+        let ty = if k - 9 >= 8 { cat::F64 } else { m::Ty::Int { min: 0, max: 255 } };
+        let mut proto = cat::xyz(cat::F32);
+        for i in 0..r {
+            proto.push(cat::ext_rec("ext", &format!("a{i}"), ty.clone()));
+        }
+        let cap = {
+            let p = Program { guid: "g".into(), ops: vec![Op::Ext("ext".into(), "http://example.com/ext".into()), Op::Cloud(cloud(proto.clone(), 0, 1))], ..Default::default() };
+            run_program(crate::dev::Dev::empty(), &p, &ExecOpts::default()).caps.first().copied().unwrap_or(0)
+        };
+        let p = Program { guid: "g".into(), ops: vec![Op::Ext("ext".into(), "http://example.com/ext".into()), Op::Cloud(cloud(proto, cap + 1, 9))], ..Default::default() };
+        ctx.describe(|| format!("XYZ + {r} extension records of {}, natural packet capacity {cap}, {} points", ty.describe(), cap + 1));
+        let Some(w) = write_valid(ctx, &p, P) else { return };
+        if read_and_compare(ctx, &p, &w, P, None).is_some() {
+            ctx.count(format!("wide:{r}:cap{cap}"));
+            ctx.observe_u64(explore::fnv(&w.bytes));
+            ctx.nontrivial();
+        }
+        return;
+    }
     let b1 = m::Ty::Int { min: 0, max: 1 };
     let p = match k {
         // 255 / 256 / 257 / 300 point clouds of one or two points each
